@@ -246,7 +246,7 @@ Proof.
     destruct (uo_pushed _); [apply passiveP_refl|].
     eapply passiveP_trans; [apply passiveP_upd_up|apply passiveP_enq_all]. apply Psome.
   - destruct (Nat.ltb u (w_nup w0) && negb (uo_closed (w_up w0 u))); [|apply passiveP_refl].
-    destruct (c_group (w_cl w0 (uo_owner (w_up w0 u)))); [|apply passiveP_refl].
+    destruct (c_group (w_cl w0 (uo_owner (w_up w0 u)))); [|apply passiveP_upd_up].
     unfold new_timer. eapply passiveP_trans; [apply passiveP_upd_up|].
     eapply passiveP_trans; [apply passiveP_upd_up|apply passiveP_set_timers].
 Qed.
